@@ -401,6 +401,7 @@ pub fn def() -> PropDef {
         needs_pairing: false,
         subs: vec![
             Box::new(crate::engine::EnumSub { name: "long-history", rule: super::longhist::RULE, run: run_long_history, replay: super::longhist::replay, exhaustive: false }),
+            Box::new(crate::engine::EnumSub { name: "two-input-bursts", rule: super::longhist::BURST_RULE, run: run_two_input_bursts, replay: super::longhist::replay_burst, exhaustive: false }),
             Box::new(Sub { name: "decoders", rule: "four decoders, checked and unchecked, vs model decoder (accepted point or first failing stage)", quick: 24_000, thorough: 250_000, strategy: || boxed(dec_case_strategy()), check: check_dec_any }),
             Box::new(Sub { name: "related-strings", rule: "a byte string followed back to back by 1..4 related strings (sort flag flipped, other flag combination, further edit, the same point in the other form, the same again), each compared with the model decoder", quick: 3_000, thorough: 80_000, strategy: || boxed(dec_seq_strategy()), check: check_dec_seq }),
             super::corpus_sub_decode(),
